@@ -368,3 +368,63 @@ Proof.
     eapply (failed_down s' b eb' W' C' Hb' i); [|exact Fy].
     unfold dep in *. rewrite (fr_root _ _ F'), !(hgt_static _ _ _ S'). lia.
 Qed.
+
+Lemma up_beyond : forall s b eb j, wf s -> scoh s -> cfind (cores s) b = Some eb -> dep s b <= Z.of_nat j ->
+    up (cores s) j b = root _ _ s.
+Proof.
+  intros s b eb j W C Hb Hj. destruct (dep_facts s b _ W C Hb) as (D0 & Hr & _).
+  replace j with (Z.to_nat (dep s b) + (j - Z.to_nat (dep s b)))%nat by lia. rewrite up_add, Hr. apply up_root. exact W.
+Qed.
+
+(** after a failed attempt on the target branch the blocks of the old chain above the fork are untouched *)
+Lemma old_chain_ok : forall s s2 t to fork ka kb,
+    wf s -> scoh s -> wf s2 -> scoh s2 -> alone s2 fork ->
+    (exists e, cfind (cores s) t = Some e) -> (exists e, cfind (cores s) to = Some e) ->
+    fork = up (cores s) ka t -> fork = up (cores s) kb to -> Z.of_nat ka <= dep s t -> Z.of_nat kb <= dep s to ->
+    (forall g i j, g = up (cores s) i t -> g = up (cores s) j to -> Z.of_nat i <= dep s t -> Z.of_nat j <= dep s to ->
+                   hgt (cores s) g <= hgt (cores s) fork) ->
+    md (branch s to) s s2 -> root _ _ s2 = root _ _ s ->
+    forall i, (i < ka)%nat -> okblk s (up (cores s) i t) -> okblk s2 (up (cores s) i t).
+Proof.
+  intros s s2 t to fork ka kb W C W2 C2 A2 (et & Het) (eto & Heto) Hf1 Hf2 Ka Kb Hmax M R2 i Hi (Hyr & by0 & Fy & Hyl & Hyf).
+  set (y := up (cores s) i t) in *.
+  pose proof (md_static _ _ _ M) as S2.
+  destruct (static_find _ _ y by0 (proj1 M) Fy) as (by2 & Fy2).
+  destruct (proj2 M y by0 by2 Fy Fy2) as (Afb & Alv & _ & _ & Afp & _ & Afc).
+  destruct (up_hgt_dep s t et i W C Het ltac:(lia)) as (Hhy & _). fold y in Hhy.
+  destruct (up_hgt_dep s t et ka W C Het Ka) as (Hhf & _). rewrite <- Hf1 in Hhf.
+  (* a block of the target branch that is an ancestor-or-self of y lies at or below the fork *)
+  assert (Hcommon : forall x j k, x = up (cores s) j to -> x = up (cores s) k y -> x <> root _ _ s -> hgt (cores s) x <= hgt (cores s) fork).
+  { intros x j k Hx1 Hx2 Hxr.
+    assert (Hj : Z.of_nat j <= dep s to).
+    { destruct (Z_le_gt_dec (Z.of_nat j) (dep s to)) as [l|g]; [exact l|]. exfalso. apply Hxr. rewrite Hx1. eapply up_beyond; try eassumption. lia. }
+    assert (Hx3 : x = up (cores s) (i + k) t) by (rewrite up_add; exact Hx2).
+    assert (Hk : Z.of_nat (i + k) <= dep s t).
+    { destruct (Z_le_gt_dec (Z.of_nat (i + k)) (dep s t)) as [l|g]; [exact l|]. exfalso. apply Hxr. rewrite Hx3. eapply up_beyond; try eassumption. lia. }
+    exact (Hmax x (i + k)%nat j Hx3 Hx1 Hk Hj). }
+  split; [rewrite R2; exact Hyr|]. exists by2. split; [exact Fy2|]. split; [lia|].
+  unfold is_failed in *. rewrite Afb.
+  apply orb_false_iff in Hyf. destruct Hyf as [Hyf Hyfc]. apply orb_false_iff in Hyf. destruct Hyf as [Hyfb Hyfp].
+  assert (Hfp2 : b_fp ccmd by2 = false).
+  { destruct (b_fp ccmd by2) eqn:P; [|reflexivity]. exfalso. destruct (Afp eq_refl) as [e|(j & Hj)]; [congruence|].
+    pose proof (Hcommon y j O Hj eq_refl Hyr). lia. }
+  assert (Hfc2 : b_fc ccmd by2 = false).
+  { destruct (b_fc ccmd by2) eqn:P; [|reflexivity]. exfalso. destruct (Afc eq_refl) as [e|(x & k & (j & Hj) & (_ & (bx2 & Fx2 & Px2)) & Hk & Hux)]; [congruence|].
+    (* x is failed in s2; but it is an applied block there *)
+    assert (Hxact : is_act (cores s2) x).
+    { destruct (N.eq_dec x (root _ _ s)) as [Hxr|Hxr].
+      - rewrite Hxr, <- R2. destruct W2 as (_ & (hr & HR) & _). exists (root pstate ccmd s2, root pstate ccmd s2, hr, true). split; [exact HR|reflexivity].
+      - pose proof (Hcommon x j k Hj (eq_sym Hux) Hxr) as Hle.
+        assert (Hx3 : x = up (cores s) (i + k) t) by (rewrite up_add; symmetry; exact Hux).
+        assert (Hkd : Z.of_nat (i + k) <= dep s t).
+        { destruct (Z_le_gt_dec (Z.of_nat (i + k)) (dep s t)) as [l|g]; [exact l|]. exfalso. apply Hxr. rewrite Hx3. eapply up_beyond; try eassumption. lia. }
+        destruct (up_hgt_dep s t et (i + k) W C Het Hkd) as (Hhx & _). rewrite <- Hx3 in Hhx.
+        assert (Hge : (ka <= i + k)%nat) by lia.
+        assert (Hx4 : x = up (cores s) (i + k - ka) fork).
+        { rewrite Hf1, <- up_add. replace (ka + (i + k - ka))%nat with (i + k)%nat by lia. exact Hx3. }
+        rewrite Hx4, <- (up_static _ _ _ fork S2).
+        exact (chain_up_active (at_blk s2 fork) A2 (i + k - ka)). }
+    destruct (is_act_find _ _ Hxact) as (bx & Fx & Ax). rewrite Fx2 in Fx. inversion Fx; subst bx.
+    destruct C2 as (_ & _ & _ & _ & C3 & _). destruct (C3 _ _ Fx2 Ax) as [Hv _]. unfold is_failed in Hv. rewrite Px2 in Hv. rewrite orb_true_r in Hv. discriminate. }
+  rewrite Hyfb, Hfp2, Hfc2. reflexivity.
+Qed.
